@@ -429,6 +429,11 @@ def check_multi_couplings(ctx, lat, G, case, rng):
         for k in range(nops):
             dx = [0] * G.dim if k == 0 else [int(rng.integers(-2, 3)) for _ in range(G.dim)]
             ops.append(('X', dx, int(rng.integers(G.nu))))
+        if rng.random() < 0.4:
+            # no operator at the origin: the whole box is displaced (all displacements positive / negative in some direction)
+            off = [int(rng.integers(-2, 3)) for _ in range(G.dim)]
+            ops = [(n_, [a_ + b_ for a_, b_ in zip(dx_, off)], u_) for n_, dx_, u_ in ops]
+            ctx.count('multi_couplings.displaced_box')
         try:
             mps_ijkl, lat_indices, cshape = lat.possible_multi_couplings(ops)
         except Exception as e:
@@ -438,7 +443,8 @@ def check_multi_couplings(ctx, lat, G, case, rng):
         # brute force: anchor cell x for operator 0; all operators must exist; box must not cross an open boundary
         exp = []
         dxs = np.array([o[1] for o in ops])
-        for x in itertools.product(*[range(L) for L in G.Ls]):
+        # (anchors outside the lattice are fine in open directions as long as every operator lands inside)
+        for x in itertools.product(*[range(-4, L + 4) if G.bc_open[a] else range(L) for a, L in enumerate(G.Ls)]):
             row, ok = [], True
             # the whole box (all operators relative to the lower-left corner) must be placeable: tenpy enumerates
             # positions of the lower-left corner; operator k sits at corner + dx_k - min(dx)
@@ -480,6 +486,22 @@ def check_multi_couplings(ctx, lat, G, case, rng):
             ctx.violation('possible_multi_couplings:wrong-set', 'ops %r: got %r expected %r' % (ops, sorted(got)[:6], sorted(exp)[:6]),
                           dict(case, ops=ops))
             return
+        # lat_indices: position of the lower-left corner of the box (where a site-dependent strength is read), inside coupling_shape
+        mins = dxs.min(axis=0)
+        if lat.bc_shift is not None or type(lat).__name__ in ('IrregularLattice', 'HelicalLattice'):
+            continue  # (a shifted boundary moves the box when it wraps: the corner is not a plain difference of coordinates)
+        if not got:
+            continue
+        for r, li in zip(np.asarray(mps_ijkl).reshape(-1, nops).tolist(), np.asarray(lat_indices).reshape(len(got), -1).tolist()):
+            pos0 = np.asarray(lat.mps2lat_idx(int(r[0])))[:G.dim]
+            corner = pos0 - dxs[0] + mins
+            for a in range(G.dim):
+                want = int(corner[a]) if G.bc_open[a] else int(corner[a]) % int(G.Ls[a])
+                if int(li[a]) != want or not (0 <= int(li[a]) < int(cshape[a])):
+                    ctx.violation('possible_multi_couplings:lat_indices', 'ops %r: coupling %r has lat_indices %r, corner of its box %r, coupling_shape %r' %
+                                  (ops, r, li, [int(c) for c in corner], list(map(int, cshape))), dict(case, ops=ops))
+                    return
+        ctx.count('multi_couplings.lat_indices_checked')
 
 
 def check_values(ctx, lat, G, case, rng):
@@ -523,8 +545,58 @@ def check_values(ctx, lat, G, case, rng):
                     if float(val) != A[i]:
                         ctx.violation('mps2lat_values:wrong-position', 'cell %r u=%r holds %r expected %r' % (x, u, res[x], A[i]), case)
                         return
+        if not isinstance(lat, IrregularLattice):
+            check_values_two_axes(ctx, lat, G, case, rng)
     except Exception as e:
         ctx.violation('mps2lat_values:raises-%s' % type(e).__name__, traceback.format_exc()[-500:], case)
+
+
+def check_values_two_axes(ctx, lat, G, case, rng):
+    """mps2lat_values_masked over two axes at once, with different index sets per axis, given in any order of the axes."""
+    N = G.N
+    sets = []
+    for _ in range(2):
+        k = int(rng.integers(1, N + 1))
+        sets.append(np.sort(rng.permutation(N)[:k]))
+    inc = [bool(rng.random() < 0.5) if G.nu > 1 else bool(rng.random() < 0.3) for _ in range(2)]
+    A = rng.integers(1, 1000, size=(len(sets[0]), 3, len(sets[1]))).astype(float)
+    ax_of = [0, 2]  # axis of A that belongs to sets[0] / sets[1]
+    order = [0, 1] if rng.random() < 0.5 else [1, 0]
+    names = [[0, -3], [2, -1]]
+    axes = [names[k][int(rng.integers(2))] for k in order]
+    res = lat.mps2lat_values_masked(A, axes=axes, mps_inds=[sets[k] for k in order], include_u=[inc[k] for k in order])
+    ctx.count('values.two_axes')
+    if order == [1, 0]:
+        ctx.count('values.two_axes_descending')
+    nl = [G.dim + (1 if inc[k] else 0) for k in range(2)]
+    exp_ndim = nl[0] + 1 + nl[1]
+    if res.ndim != exp_ndim:
+        ctx.violation('mps2lat_values_masked:two-axes:ndim', '%d expected %d' % (res.ndim, exp_ndim), dict(case, axes=axes))
+        return
+    shp = [tuple(int(x) for x in (lat.shape if inc[k] else lat.shape[:-1])) for k in range(2)]
+    if tuple(res.shape) != shp[0] + (3, ) + shp[1]:
+        ctx.violation('mps2lat_values_masked:two-axes:shape', 'axes %r: %r expected %r' % (axes, tuple(res.shape), shp[0] + (3, ) + shp[1]), dict(case, axes=axes))
+        return
+    n_set = 0
+    for a, i in enumerate(sets[0].tolist()):
+        li = [int(x) for x in lat.mps2lat_idx(i)]
+        li = li if inc[0] else li[:-1]
+        for b, j in enumerate(sets[1].tolist()):
+            lj = [int(x) for x in lat.mps2lat_idx(j)]
+            lj = lj if inc[1] else lj[:-1]
+            for m in range(3):
+                v = res[tuple(li) + (m, ) + tuple(lj)]
+                # (without the u index several sites of one unit cell share a position: the last one written wins -- skip those)
+                if (not inc[0] and G.nu > 1) or (not inc[1] and G.nu > 1):
+                    continue
+                n_set += 1
+                if np.ma.is_masked(v) or float(v) != A[a, m, b]:
+                    ctx.violation('mps2lat_values_masked:two-axes:wrong-position', 'axes %r: value of MPS sites (%d, %d) expected at %r x %r, found %r' %
+                                  (axes, i, j, li, lj, v), dict(case, axes=axes))
+                    return
+    if n_set and int(np.sum(~np.ma.getmaskarray(res))) != n_set:
+        ctx.violation('mps2lat_values_masked:two-axes:unmasked-count', '%d unmasked entries for %d values' % (int(np.sum(~np.ma.getmaskarray(res))), n_set),
+                      dict(case, axes=axes))
 
 
 def check_pairs(ctx, lat, G, case, rng):
